@@ -467,7 +467,7 @@ def sv_isinstance(v: SV, classes):
 
 
 # ---------------------------------------------------------------------------- containers
-class SList:
+class SList(SymbolicMarker):
     """Symbolic-length list (list algebra).  Filled in by pyvc.slist."""
 
     length: SV
@@ -933,6 +933,10 @@ def _isclose(interp, a, b, rtol=1e-05, atol=1e-08, equal_nan=False):
 @model(np.argsort)
 def _argsort(interp, xs, *a, **k):
     """External contract: the result is a permutation of range(n) that sorts xs (no stability promised)."""
+    if isinstance(xs, SList):
+        from . import slist
+
+        return slist.argsort(interp, xs)
     xs = interp.iterate(xs)
     n = len(xs)
     if not is_symbolic(xs):
@@ -947,3 +951,34 @@ def _argsort(interp, xs, *a, **k):
         interp.ctx.assume(to_z3(u) <= to_z3(v))
     interp.ctx.ghost.setdefault("externals", set()).add("np.argsort: returns a permutation of range(n) that sorts its argument")
     return sig
+
+
+@model(np.unique)
+def _unique(interp, xs, return_index=False, **kw):
+    """np.unique on scalars: sorted distinct values (and the index of each value's first occurrence)."""
+    if kw:
+        raise Unsupported("np.unique options")
+    xs = interp.iterate(xs)
+    reps = []  # (value, first index)
+    for i, x in enumerate(xs):
+        dup = False
+        for v, _ in reps:
+            eq = as_bool_sv(interp, interp.compare(ast.Eq(), x, v))
+            if eq is True or (isinstance(eq, SV) and interp.ctx.branch(eq, "unique-dedup")):
+                dup = True
+                break
+        if not dup:
+            reps.append((x, i))
+    n = len(reps)
+    sig = [SV(z3.Int(fresh_name("uniqperm")), "int") for _ in range(n)]
+    for s_ in sig:
+        interp.ctx.assume(z3.And(s_.z >= 0, s_.z < n))
+    if n > 1:
+        interp.ctx.assume(z3.Distinct(*[s_.z for s_ in sig]))
+    vals = [select(interp, [v for v, _ in reps], s_) for s_ in sig]
+    for u, v in zip(vals, vals[1:]):
+        interp.ctx.assume(to_z3(u) < to_z3(v))
+    if not return_index:
+        return vals
+    idx = [select(interp, [i for _, i in reps], s_) for s_ in sig]
+    return (vals, idx)
